@@ -717,12 +717,103 @@ pub fn h_list_hist3(inp: &Inp) -> u8 {
         }
         return cov;
     }
-    // v == 4: a replica that lags behind applies the third op (twice) and converges
+    // v == 4: a replica that lags behind applies the third op (twice) and converges; re-delivering the
+    // older ops afterwards (at-least-once delivery) changes nothing, in particular a deleted element stays
+    // deleted
     let mut t2 = lag;
     t2.apply(op2.clone());
     t2.apply(op2);
     if t2 != t {
         return 0;
     }
+    let mut t3 = t.clone();
+    t3.apply(op1);
+    t3.apply(op0);
+    if t3 != t {
+        return 0;
+    }
     cov
+}
+
+//@ harness props=C12,C01,C09,C16 covers=3 unwind=10 name=List concurrent deletes: two actors delete the same element concurrently, one of them keeps editing; whatever the order in which a replica receives the two deletes (with a duplicate), later ops of both actors are applied and all replicas converge
+#[no_mangle]
+pub fn h_list_conc_del(inp: &Inp) -> u8 {
+    let mut i = In::new(inp);
+    let a0 = i.below(NA);
+    let a1 = i.below(NA);
+    let a2 = i.below(NA);
+    let extra = i.bool();
+    let ixz = i.below(3) as usize;
+    let dup = i.bool();
+    i.assume(a1 != a2);
+    if !i.ok {
+        return 2;
+    }
+    // a0 inserts x (and possibly y); both a1 and a2 have seen that and delete x concurrently; a2 then inserts z
+    let mut r0: L = List::new();
+    let op0 = r0.insert_index(0, 10, a0);
+    r0.apply(op0.clone());
+    let opy = r0.insert_index(1, 13, a0);
+    if extra {
+        r0.apply(opy.clone());
+    }
+    let mut r1 = r0.clone();
+    let mut r2 = r0.clone();
+    let op1 = match r1.delete_index(0, a1) {
+        Some(o) => o,
+        None => return 0,
+    };
+    r1.apply(op1.clone());
+    let op2 = match r2.delete_index(0, a2) {
+        Some(o) => o,
+        None => return 0,
+    };
+    if r2.validate_op(&op2).is_err() {
+        return 0;
+    }
+    r2.apply(op2.clone());
+    let op3 = r2.insert_index(ixz, 12, a2);
+    if r2.validate_op(&op3).is_err() {
+        return 0;
+    }
+    r2.apply(op3.clone());
+    // replica T receives a1's delete first, T2 a2's ops first
+    let mut t = r0.clone();
+    if t.validate_op(&op1).is_err() {
+        return 0;
+    }
+    t.apply(op1.clone());
+    if t.validate_op(&op2).is_err() {
+        return 0;
+    }
+    t.apply(op2.clone());
+    if dup {
+        t.apply(op1.clone());
+    }
+    if t.validate_op(&op3).is_err() {
+        return 0;
+    }
+    t.apply(op3.clone());
+    let mut t2 = r0.clone();
+    t2.apply(op2.clone());
+    t2.apply(op3.clone());
+    t2.apply(op1.clone());
+    if dup {
+        t2.apply(op2.clone());
+    }
+    r2.apply(op1.clone());
+    r1.apply(op2);
+    r1.apply(op3);
+    if t != t2 || t != r2 || t != r1 {
+        return 0;
+    }
+    let st = seq(&t);
+    if count(&st, 12) != 1 || count(&st, 10) != 0 || st.1 != (if extra { 2 } else { 1 }) {
+        return 0;
+    }
+    if extra {
+        3
+    } else {
+        1
+    }
 }
